@@ -76,53 +76,22 @@ def clsFlags (c : Char) : String :=
     if isWord c then 'w' else '-', if isDigitProp c then 'D' else '-',
     if isLineBreak c then 'b' else '-', if isIntSpace c then 'i' else '-']
 
-/-- trailing `fixed` argument selects the repaired variant of the model -/
-def isFx (args : List String) : Bool := args.getLast? == some "fixed"
-
-/-- which uncaught-`ValueError` class a LIST line falls in (for finding signatures) -/
-def listWhy (y : Nat) (l : Str) : String :=
-  let timeBad (r : Res (Option Int)) := match r with | .err _ => true | .ok _ => false
-  match reLinux l with
-  | some g =>
-    if timeBad (decodeLinuxTime false y g.mtime) then "time"
-    else if g.size.length > maxStrDigits then "digits" else "-"
-  | none =>
-    match reNt l with
-    | some g =>
-      if (match g.size with | some ds => decide (ds.length > maxStrDigits) | none => false) then "digits"
-      else if timeBad (decodeNtTime false y (g.date ++ ' ' :: g.time)) then "time" else "-"
-    | none => "-"
-
-def mlsdWhy (l : Str) : String :=
-  match parseMlsxLine false l with
-  | .ok _ => "-"
-  | .err _ =>
-    match mlsdSize false (parseFacts (strip l)).2 with
-    | .err _ => "size"
-    | .ok _ => "timegm"
-
 def handle (cmd : String) (args : List String) : Option String :=
-  let fx := isFx args
   match cmd with
   | "parse.url" => do let s ← arg args 0; some (res parseResult (parseFsUrl s))
-  | "parse.urlfixed" => do let s ← arg args 0; some (res parseResult (parseFsUrlFixed s))
-  | "parse.urlparams" => do let s ← arg args 0; some (res parseResult (parseFsUrlP s))
-  | "parse.urlrepaired" => do let s ← arg args 0; some (res parseResult (parseFsUrlRepaired s))
   | "parse.open" => do
-      let known ← argList args 0; let dflt ← arg args 1; let url ← arg args 2; let v ← args[3]?
-      let parser := if v == "cp" then parseFsUrlRepaired else if v == "c" then parseFsUrlFixed
-        else if v == "p" then parseFsUrlP else parseFsUrl
+      let known ← argList args 0; let dflt ← arg args 1; let url ← arg args 2
       some (res (fun ur => str ur.1 ++ " " ++ parseResult ur.2)
-        (registryOpen parser known "osfs".toList dflt url))
+        (registryOpen known "osfs".toList dflt url))
   | "parse.re" => do
       let s ← arg args 0
       some (match reFsUrl s with | none => "ok N" | some g => "ok " ++ groups g)
-  | "parse.build" | "parse.buildstd" => do
+  | "parse.build" => do
       let proto ← arg args 0; let u ← argOpt args 1; let p ← argOpt args 2
       let r ← arg args 3; let ps ← argList args 4; let path ← argOpt args 5
       let params ← pairs ps
       let x : ParseResult := ⟨proto, u, p, r, params, path⟩
-      some ("ok " ++ str (if cmd == "parse.build" then buildFsUrl x else buildFsUrlStd x))
+      some ("ok " ++ str (buildFsUrl x))
   | "parse.unquote" => do let s ← arg args 0; some ("ok " ++ str (unquote s))
   | "parse.quote" => do let s ← arg args 0; some ("ok " ++ str (quoteAll s))
   | "parse.urlquote" => do let s ← arg args 0; some ("ok " ++ str (urlQuote s))
@@ -132,34 +101,32 @@ def handle (cmd : String) (args : List String) : Option String :=
       let l ← arg args 0; let y ← argNat args 1
       some (match reLinux l with
         | none => "ok N"
-        | some g => res listInfo (decodeLinux fx y l g))
+        | some g => res listInfo (decodeLinux y l g))
   | "parse.nt" => do
       let l ← arg args 0; let y ← argNat args 1
       some (match reNt l with
         | none => "ok N"
-        | some g => res listInfo (decodeNt fx y l g))
+        | some g => res listInfo (decodeNt y l g))
   | "parse.line" => do
       let l ← arg args 0; let y ← argNat args 1
-      some (res optListInfo (parseLine fx y l))
+      some (res optListInfo (parseLine y l))
   | "parse.list" => do
       let ls ← argList args 0; let y ← argNat args 1
-      some (res (many listInfo) (parse fx y ls))
+      some (res (many listInfo) (parse y ls))
   | "parse.time.linux" => do
       let t ← arg args 0; let y ← argNat args 1
-      some (res optInt (decodeLinuxTime fx y t))
+      some (res optInt (decodeLinuxTime y t))
   | "parse.time.nt" => do
       let t ← arg args 0; let y ← argNat args 1
-      some (res optInt (decodeNtTime fx y t))
+      some (res optInt (decodeNtTime y t))
   | "parse.perms" => do let s ← arg args 0; some ("ok " ++ strList (permNames s))
-  | "parse.mlsd" => do let ls ← argList args 0; some (res (many mlsdInfo) (parseMlsx fx ls))
+  | "parse.mlsd" => do let ls ← argList args 0; some (res (many mlsdInfo) (parseMlsx ls))
   | "parse.facts" => do
       let l ← arg args 0
       let r := parseFacts l
       some ("ok " ++ optStr r.1 ++ " " ++ alist r.2)
-  | "parse.ftptime" => do let t ← arg args 0; some (res optInt (parseFtpTime fx t))
+  | "parse.ftptime" => do let t ← arg args 0; some (res optInt (parseFtpTime t))
   | "parse.feat" => do let s ← arg args 0; some ("ok " ++ alist (parseFeatures s))
-  | "parse.listwhy" => do let l ← arg args 0; let y ← argNat args 1; some ("ok " ++ listWhy y l)
-  | "parse.mlsdwhy" => do let l ← arg args 0; some ("ok " ++ mlsdWhy l)
   | "parse.int" => do let s ← arg args 0; some ("ok " ++ optInt (pyInt s))
   | "parse.strip" => do let s ← arg args 0; some ("ok " ++ str (strip s))
   | "parse.lower" => do let s ← arg args 0; some ("ok " ++ str (lower s))
